@@ -316,8 +316,15 @@ def _validate_shard(module, path, timeout, heap, extra_env, stateful=False):
         m = None
         for m in re.finditer(r'^/?\\?\s*l = (\d+)\s*$', r['out'], re.M):
             pass
-        if m is None or guard > 50:
+        if m is None:
             raise MachineryError('TLC failed on %s without a position:\n%s' % (module, r['out'][-3000:]))
+        if guard > 25:
+            # the specification cannot be evaluated on case after case: enough rejections are on record, the rest is not examined
+            with open(cur) as f:
+                remaining = len([ln for ln in f.read().split('\n') if ln.strip()])
+            rejects.append(['shard', 'specification could not be evaluated on 25 cases of this shard; %d further cases not examined' % remaining])
+            consumed += remaining
+            break
         lcur = int(m.group(1))                   # 1-based index (within cur) of the case being evaluated
         with open(cur) as f:
             curlines = [ln for ln in f.read().split('\n') if ln.strip()]
